@@ -514,6 +514,9 @@ class Engine:
             n = self.hsel("$card" + rg, v.t)
         elif k == "str":
             return z3.Length(v.t)
+        elif k == "bytes" and "blen" in self.reg.logic.funcs:
+            f, _, _ = self.spec_func("blen")
+            return f(v.t)
         else:
             raise Unsupported("len of %r" % (v.ty,))
         self.assume_global(n >= 0)
